@@ -49,6 +49,22 @@ pub struct Gen<'r> {
     pub one_word_types: Vec<u32>,
     pub two_word_types: Vec<u32>,
     pub cfg: ProdCfg,
+    /// Builder driver: every id must come from the pools (no forward / undefined references)
+    pub no_forward: bool,
+    /// Builder driver: ids never defined by any instruction (safe selectors / unknown types)
+    pub untyped_pool: Vec<u32>,
+    /// operand groups of the last generated instruction, one per logical operand of the grammar
+    /// (result type / result id excluded)
+    pub last_groups: Vec<Group>,
+}
+
+/// One logical operand of the grammar with the concrete items generated for it;
+/// each item is the operand's own word(s) followed by the parameters it requires.
+#[derive(Clone, Debug)]
+pub struct Group {
+    pub kind: KindId,
+    pub quant: Quant,
+    pub items: Vec<Vec<MOp>>,
 }
 
 const STR_SAMPLES: &[&str] = &["", "a", "ab", "abc", "abcd", "abcde", "main", "GLSL.std.450", "OpenCL.std", "é", "日本", "😀", "a\"b\\c", "x y", "SPV_KHR_x", "tab\there", "nl\nx"];
@@ -63,16 +79,21 @@ impl<'r> Gen<'r> {
             one_word_types: vec![],
             two_word_types: vec![],
             cfg,
+            no_forward: false,
+            untyped_pool: vec![],
+            last_groups: vec![],
         }
     }
     pub fn fresh(&mut self) -> u32 {
         let id = self.next_id;
         self.next_id += 1;
-        self.ids.push(id);
+        if !self.no_forward {
+            self.ids.push(id);
+        }
         id
     }
     pub fn some_id(&mut self) -> u32 {
-        if !self.ids.is_empty() && self.rng.chance(7, 8) {
+        if !self.ids.is_empty() && (self.no_forward || self.rng.chance(7, 8)) {
             *self.rng.pick(&self.ids)
         } else {
             // forward / undefined reference: ids are not validated by rspirv
@@ -154,6 +175,14 @@ impl<'r> Gen<'r> {
 
     /// A result-type id for a context-dependent literal: a declared supported type or an undeclared id.
     fn literal_type(&mut self) -> u32 {
+        if self.no_forward {
+            // Builder driver: a declared one-word type or an id nothing ever defines
+            return if !self.one_word_types.is_empty() && self.rng.chance(1, 2) {
+                *self.rng.pick(&self.one_word_types)
+            } else {
+                *self.rng.pick(&self.untyped_pool)
+            };
+        }
         match self.rng.below(8) {
             0..=3 if !self.one_word_types.is_empty() => *self.rng.pick(&self.one_word_types),
             4..=6 if !self.two_word_types.is_empty() => *self.rng.pick(&self.two_word_types),
@@ -178,7 +207,12 @@ impl<'r> Gen<'r> {
             }
             Cat::LitSpecOp => {
                 // nested opcode restricted to ones whose operands are all single simple kinds
-                let cands: Vec<u16> = s.insts.iter().filter(|g| spec_op_simple(g.opcode) && g.operands.len() >= 2).map(|g| g.opcode).collect();
+                let cands: Vec<u16> = if self.no_forward {
+                    // the Builder's spec_constant_op takes the opcode only: nested opcodes without own operands
+                    s.insts.iter().filter(|g| g.operands.iter().all(|(k, _)| matches!(s.cat(*k), Cat::IdResultType | Cat::IdResult))).map(|g| g.opcode).collect()
+                } else {
+                    s.insts.iter().filter(|g| spec_op_simple(g.opcode) && g.operands.len() >= 2).map(|g| g.opcode).collect()
+                };
                 let n = *self.rng.pick(&cands);
                 ops.push(MOp::W(s.k_specop, n as u32));
                 let g = s.inst(n).unwrap();
@@ -225,6 +259,7 @@ impl<'r> Gen<'r> {
         let mut rid = None;
         let mut ops = vec![];
         let mut absent = false;
+        let mut groups: Vec<Group> = vec![];
         for (i, (k, q)) in g.operands.iter().enumerate() {
             let n = match q {
                 Quant::One => 1,
@@ -244,17 +279,36 @@ impl<'r> Gen<'r> {
                     }
                 }
             };
+            let mut items: Vec<Vec<MOp>> = vec![];
             for _ in 0..n {
+                let before = ops.len();
                 if is_switch && i == 0 {
                     // selector: prefer an id whose type is known to the context
                     let typed: Vec<u32> = self.ids.iter().cloned().filter(|id| self.tctx.types.contains_key(id) && self.tctx.width_of(*id) != Width::Unsupported).collect();
-                    let sel = if !typed.is_empty() && self.rng.chance(3, 4) { *self.rng.pick(&typed) } else { self.some_id() };
+                    let sel = if self.no_forward {
+                        *self.rng.pick(&self.untyped_pool)
+                    } else if !typed.is_empty() && self.rng.chance(3, 4) {
+                        *self.rng.pick(&typed)
+                    } else {
+                        self.some_id()
+                    };
                     ops.push(MOp::W(s.k_idref, sel));
                 } else {
                     self.gen_kind(*k, &mut rtype, &mut rid, &mut ops, has_ctx);
                 }
+                items.push(ops[before..].to_vec());
+            }
+            if !matches!(s.cat(*k), Cat::IdResultType | Cat::IdResult) {
+                groups.push(Group { kind: *k, quant: *q, items });
             }
         }
+        if self.no_forward && (g.name == "TypeInt" || g.name == "TypeFloat") {
+            // Builder driver: widths that matter for later literals
+            let w = *self.rng.pick(&[8u32, 16, 32, 32, 64, 64, 7, 128]);
+            ops[0] = MOp::W(s.k_lit32, w);
+            groups[0].items[0][0] = MOp::W(s.k_lit32, w);
+        }
+        self.last_groups = groups;
         let inst = MInst { opcode, rtype, rid, ops };
         self.note(&inst);
         inst
